@@ -8,6 +8,7 @@
 //         N <W> dN <W|EXC>                                  A.RemoveUnreachableStates()
 //         L <W> dL <W|EXC>                                  A.RemoveUselessStates()
 //         C <W> dC <W|EXC>                                  A.GetCandidateTree()
+//         K <W>*10                                          composed operations (see below), read through the object
 //         I <W> <W>                                         the operands re-read after all calls
 // <W> after an operation letter is the result read through the object (start states: public
 // GetStartStates; finals/edges: the core); d? is the same result as printed by the public
@@ -50,10 +51,22 @@ int main() {
 				os << " PM " << v.size(); for (auto& r : v) os << ' ' << r[0] << ' ' << r[1] << ' ' << r[2];
 				os << " dX " << dumpObs(x);
 			}
-			{ FA v = a.Reverse(); os << " V " << showW(obsNfa(v)) << " dV " << dumpObs(v); }
+			FA v = a.Reverse(); os << " V " << showW(obsNfa(v)) << " dV " << dumpObs(v);
 			{ FA n = a.RemoveUnreachableStates(); os << " N " << showW(obsNfa(n)) << " dN " << dumpObs(n); }
-			{ FA l = a.RemoveUselessStates(); os << " L " << showW(obsNfa(l)) << " dL " << dumpObs(l); }
-			{ FA c = a.GetCandidateTree(); os << " C " << showW(obsNfa(c)) << " dC " << dumpObs(c); }
+			FA l = a.RemoveUselessStates(); os << " L " << showW(obsNfa(l)) << " dL " << dumpObs(l);
+			FA c = a.GetCandidateTree(); os << " C " << showW(obsNfa(c)) << " dC " << dumpObs(c);
+			{	// composed operations: results of one operation as operands of the next (multi-step sequences)
+				FA x = FA::Intersection(a, b); FA vb = b.Reverse();
+				os << " K " << showW(obsNfa(x)) << ' ' << showW(obsNfa(vb));
+				os << ' ' << showW(obsNfa(FA::Union(v, b)));                 // Union(Reverse(A), B)
+				os << ' ' << showW(obsNfa(FA::Union(b, l)));                 // Union(B, RemoveUselessStates(A))
+				os << ' ' << showW(obsNfa(FA::Union(x, b)));                 // Union(Intersection(A,B), B)
+				os << ' ' << showW(obsNfa(FA::Union(c, b)));                 // Union(GetCandidateTree(A), B)
+				os << ' ' << showW(obsNfa(FA::Intersection(v, vb)));         // Intersection(Reverse(A), Reverse(B))
+				os << ' ' << showW(obsNfa(v.Reverse()));                     // Reverse(Reverse(A))
+				os << ' ' << showW(obsNfa(l.Reverse()));                     // Reverse(RemoveUselessStates(A))
+				os << ' ' << showW(obsNfa(FA::Union(v, vb).RemoveUselessStates()));   // RemoveUselessStates(Union(Reverse(A), Reverse(B)))
+			}
 			os << " I " << showW(obsNfa(a)) << ' ' << showW(obsNfa(b));
 			return os.str();
 		});
